@@ -456,10 +456,12 @@ PROPS['C10'] = {'suites': [{'name': 'decthread', 'quick': 500, 'thorough': 5000}
                'every rendered frame is the shaded Hermite interpolation of four consecutive entries or silence, entry a+1 itself at an integer '
                'position (C10_slow_decoder_gaps_only; C10_starving_process_is_silent). The twin agrees with the real thread step by step '
                '(exhaustively for streams <= 4 frames x failing call k x stop/drop/seek at every decoder position in the thorough tier)',
- 'level_note': 'PARTIAL, two clauses are false of the code and proved false: C10_thread_never_ends_when_abandoned (sound refused by a full track / '
+ 'level_note': 'PARTIAL, three clauses are false of the code and proved false: C10_frames_lost_while_starving (entries delivered one at a time while process '
+               'is mid-buffer with the ring dry are consumed unheard: more than one frame is lost; found by the real-thread slow-decoder oracle), '
+               'C10_thread_never_ends_when_abandoned (sound refused by a full track / '
                'dropped with its track or manager: for every schedule the thread stays at its loop top) and C10_busy_spin_after_error (after an error '
                'every iteration fails again at once: no push, no sleep, no end, until some process call marks Stopped - never, while the track is '
-               'paused); both are reproduced on the real code on every run (KNOWN-FINDING). A sound waiting for its start time IS stopped by an error '
+               'paused); these two are reproduced on the real code on every run, the first one in about 1 run in 5 (KNOWN-FINDING). A sound waiting for its start time IS stopped by an error '
                '(the flag test is the first statement of process): the design note claiming otherwise was wrong. Wall-clock bounds, OS scheduling '
                'and sleep granularity are observed by the real-thread oracles only; SeqCst interleavings (weak memory unmodelled)',
  'assumptions': ['sequentially consistent interleaving of the labelled steps (all kira atomics are SeqCst; rtrb is a linearizable SPSC queue)',
